@@ -1,6 +1,6 @@
 /-
 The invariant of the square-form cycle and its preservation by the common loop body
-(squfof.rs:33-40 / 64-71, `Ymq.Squfof.step`).
+(squfof.rs:37-44 / 68-75, `Ymq.Squfof.step`).
 
 With `N = n·k` not a perfect square and `s = ⌊√N⌋`, the state `(p_prev, q_prev, q) = (P, Q', Q)`
 satisfies
